@@ -103,7 +103,7 @@ class _randobj:
                 elif a == "rand_mode":
                     ret = self._int_rand_info.rand_mode
                 elif isinstance(ret, (constraint_t,dynamic_constraint_t)):
-                    if not is_expr_mode():
+                    if isinstance(ret, constraint_t) or not is_expr_mode():
                         # The constraint_t wrapper is per-type. In regular
                         # procedural code we need to return a reference 
                         # to the instance object. The proxy provides a 
@@ -195,7 +195,7 @@ class _randobj:
                     # First, assign IDs to each of the randomized fields
                     with expr_mode():
                         for f in dir(self):
-                            if not f.startswith("__") and not f.startswith("_int"):
+                            if not f.startswith("__") and not f.startswith("_int_"):
                                 fo = getattr(self, f)
                             
                                 if hasattr(fo, "_int_field_info"):
@@ -214,7 +214,7 @@ class _randobj:
                         # that a constraint can reference a dynamic constraint of 
                         # this object that is elaborated after it
                         for f in dir(self):
-                            if not f.startswith("__") and not f.startswith("_int"):
+                            if not f.startswith("__") and not f.startswith("_int_"):
                                 fo = object.__getattribute__(self, f)
                                 if isinstance(fo, dynamic_constraint_t):
                                     block = ConstraintBlockModel(f)
@@ -224,7 +224,7 @@ class _randobj:
                     
                                 # Now, elaborate the constraints
                         for f in dir(self):
-                            if not f.startswith("__") and not f.startswith("_int"):
+                            if not f.startswith("__") and not f.startswith("_int_"):
                                 fo = object.__getattribute__(self, f)
                                 if isinstance(fo, constraint_t):
                                     clear_exprs()
@@ -439,7 +439,7 @@ def generator(T):
                 # First, assign IDs to each of the randomized fields
                 with expr_mode():
                     for f in dir(self):
-                        if not f.startswith("__") and not f.startswith("_int"):
+                        if not f.startswith("__") and not f.startswith("_int_"):
                             fo = getattr(self, f)
                         
                             if hasattr(fo, "_int_field_info"):
@@ -450,7 +450,7 @@ def generator(T):
                 
                             # Now, elaborate the constraints
                     for f in dir(self):
-                        if not f.startswith("__") and not f.startswith("_int"):
+                        if not f.startswith("__") and not f.startswith("_int_"):
                             fo = getattr(self, f)
                             if isinstance(fo, constraint_t):
                                 clear_exprs()
